@@ -12,6 +12,7 @@ RULE = ("series on G(7,k), k=2..5/6, 3 abscissa images, int/float dtype, list/ar
         "ab<=12 x {process.repeat, Weaver.repeat}. Signature = (path, len, r, digest of x); non-trivial = r > 1")
 ASSUMPTIONS = ["spacing clauses are exact on dyadic grids and 1e-9-relative on the non-dyadic image"]
 ANCHORS = {"process.py": [(112, 120)], "weaver.py": [(580, 582)]}
+FORMS_HARNESSES = "all"
 EXPLANATION = "definition of the periodic extension evaluated on every element of a bounded lattice"
 
 
